@@ -57,6 +57,7 @@ Inductive ev :=
 | EReapCreate (pid : Z)            (* a child exited; its token is re-created *)
 | ERelease (pid : Z) (n : nat)     (* ServerState::release n *)
 | ESelfTest (pid : Z)              (* top level, idle: read all bytes of both pipes, write the tokens back *)
+| EAbandon (pid : Z) (n : nat)     (* error exit with n jobs still running: their tokens are re-created at once *)
 | EExit (pid : Z).                 (* force_return_tokens of a nested redo, then the process ends *)
 
 Definition set_procs (s : gs) (l : list (Z * proc)) : gs :=
@@ -114,6 +115,14 @@ Definition apply (e : ev) (s : gs) : option gs :=
       | Some p => if Z.of_nat n <=? my p
                   then let '(p', shared) := release_n n p in
                        Some {| T := T s + shared; C := C s; procs := upd pid p' (procs s); J := J s; L := L s |}
+                  else None
+      | None => None
+      end
+  | EAbandon pid n =>
+      match find pid (procs s) with
+      | Some p => if Z.of_nat n <=? J s
+                  then Some {| T := T s; C := C s; procs := upd pid (Nat.iter n create1 p) (procs s);
+                               J := J s - Z.of_nat n; L := L s |}
                   else None
       | None => None
       end
